@@ -569,6 +569,7 @@ def r_call(n, r):
     if not n['args']:
         if n['sp'] != 'bare':
             r.emit(n['sp'] if n['sp'] else '{}')
+    n0 = r.n
     for k, a in enumerate(n['args']):
         if k == 0 and m['opt'] is not None:
             if a is not None:
@@ -577,6 +578,8 @@ def r_call(n, r):
             r.emit(' ' + 'rßeZ'[k % 4])
         else:
             r.emit('{'); render(a, r); r.emit('}')
+    if n['args'] and r.n == n0 and n['sp'] != 'bare':
+        r.emit('{}')        # only an omitted optional argument: keep the control word apart from a following letter
     cs[2] = r.n
 def r_theorem(n, r):
     r.emit('\\newtheorem{' + n['env'] + '}{'); r.word(n['title'], 'body'); r.emit('}\n')
